@@ -67,11 +67,12 @@ pub fn loc_display(l: &Loc) -> String {
     s
 }
 
-fn num_f64(m: i64, e: i64) -> f64 {
+fn num_f64(m: i64, xs: &Cps, e: i64) -> f64 {
     if m == 0 && e == -999 {
         return -0.0; // JsonModel: NegZero, the float "negative zero" (mathematically 0)
     }
-    format!("{}e{}", m, e).parse::<f64>().expect("decimal")
+    // JsonModel JNumX: the digits of |m| followed by the extra digit characters xs; Rust's parse is correctly rounded
+    format!("{}{}e{}", m, cps_to_string(xs), e).parse::<f64>().expect("decimal")
 }
 
 impl SVal {
@@ -82,14 +83,21 @@ impl SVal {
             "null" => Value::Null,
             "bool" => Value::Bool(self.b),
             "num" => {
-                if !self.f && self.e >= 0 {
+                if !self.f && self.e >= 0 && !self.s.is_empty() {
+                    // JNumX integer: digits of m, then the digit characters, then e zeros
+                    let txt = format!("{}{}{}", self.m, cps_to_string(&self.s), "0".repeat(self.e as usize));
+                    match txt.parse::<i64>() {
+                        Ok(i) => Value::from(i),
+                        Err(_) => match txt.parse::<u64>() { Ok(u) => Value::from(u), Err(_) => Value::Number(serde_json::Number::from_f64(txt.parse::<f64>().expect("decimal")).expect("finite")) },
+                    }
+                } else if !self.f && self.e >= 0 {
                     // integers beyond i64 are stored as u64 (serde_json does the same when parsing)
                     match 10i64.checked_pow(self.e as u32).and_then(|p| self.m.checked_mul(p)) {
                         Some(i) => Value::from(i),
                         None => Value::from((self.m as u64) * 10u64.pow(self.e as u32)),
                     }
                 } else {
-                    Value::Number(serde_json::Number::from_f64(num_f64(self.m, self.e)).expect("finite"))
+                    Value::Number(serde_json::Number::from_f64(num_f64(self.m, &self.s, self.e)).expect("finite"))
                 }
             }
             "str" => Value::String(cps_to_string(&self.s)),
@@ -113,10 +121,10 @@ impl SVal {
                 if !self.f && self.e >= 0 {
                     match 10i64.checked_pow(self.e as u32).and_then(|p| self.m.checked_mul(p)) {
                         Some(i) => J::Int(i),
-                        None => J::Float(num_f64(self.m, self.e)),
+                        None => J::Float(num_f64(self.m, &self.s, self.e)),
                     }
                 } else {
-                    J::Float(num_f64(self.m, self.e))
+                    J::Float(num_f64(self.m, &self.s, self.e))
                 }
             }
             "str" => J::Str(cps_to_string(&self.s)),
@@ -146,12 +154,36 @@ impl SVal {
             Value::Null => SVal::blank("null"),
             Value::Bool(b) => SVal { b: *b, ..SVal::blank("bool") },
             Value::Number(n) => {
+                // up to 8 leading digits in m, the rest as digit characters in s (JsonModel.JNumX): TLC's integers are 32-bit
+                let split = |neg: bool, digits: &str| -> (i64, Cps) {
+                    let d = digits.trim_start_matches('0');
+                    let d = if d.is_empty() { "0" } else { d };
+                    let (hi, lo) = d.split_at(d.len().min(8));
+                    let m: i64 = hi.parse().unwrap_or(0);
+                    (if neg { -m } else { m }, string_to_cps(lo))
+                };
                 if let Some(i) = n.as_i64() {
-                    SVal { m: i, ..SVal::blank("num") }
+                    let (m, s) = split(i < 0, &i.unsigned_abs().to_string());
+                    SVal { m, s, ..SVal::blank("num") }
+                } else if let Some(u) = n.as_u64() {
+                    let (m, s) = split(false, &u.to_string());
+                    SVal { m, s, ..SVal::blank("num") }
                 } else {
                     let f = n.as_f64()?;
-                    let (m, e) = decimal_of(f)?;
-                    SVal { m, e, f: true, ..SVal::blank("num") }
+                    if !f.is_finite() {
+                        return None;
+                    }
+                    if f == 0.0 {
+                        return Some(SVal { m: 0, e: if f.is_sign_negative() { -999 } else { 0 }, f: true, ..SVal::blank("num") });
+                    }
+                    let txt = format!("{:e}", f); // shortest round-trip digits, e.g. 1.5e0, -2e-20
+                    let (mant, exp) = txt.split_once('e')?;
+                    let exp: i64 = exp.parse().ok()?;
+                    let neg = mant.starts_with('-');
+                    let mant = mant.trim_start_matches('-');
+                    let (ip, fp) = mant.split_once('.').unwrap_or((mant, ""));
+                    let (m, s) = split(neg, &format!("{}{}", ip, fp));
+                    SVal { m, s, e: exp - fp.len() as i64, f: true, ..SVal::blank("num") }
                 }
             }
             Value::String(s) => SVal { s: string_to_cps(s), ..SVal::blank("str") },
